@@ -60,7 +60,7 @@ def shared_shape():
 def write_shape_v(shape):
     path = os.path.join(COQ, "SharedShape.v")
     body = "(* generated on every run by tools/c15.py from /repo/src/replication/shared_core.rs *)\n" \
-           "From Coq Require Import List String Bool.\nImport ListNotations.\nOpen Scope string_scope.\n" \
+           "From Coq Require Import List String Bool.\nImport ListNotations.\nLocal Open Scope string_scope.\n" \
            "Definition shared_shape : list (string * bool) :=\n  [" + \
            ";\n   ".join('("%s", %s)' % (n, "true" if a else "false") for (n, a, _) in shape) + "].\n"
     old = open(path).read() if os.path.exists(path) else None
